@@ -237,6 +237,22 @@ impl Real {
                 let _ = self.m().put_bytes(b"another frame");
                 Ok(self.m().commit())
             }
+            "dirtyput" => {
+                // an acknowledged but UNCOMMITTED put: the handle is dirty when the next ticket arrives
+                let _ = self.m().put_bytes(b"uncommitted frame of the ticket harness");
+                Ok(Ok(()))
+            }
+            "crash" => {
+                // process death: no destructor commit; descriptors and lock go away; the next open replays the WAL.
+                // A ticket that was ACCEPTED before must still be the stored one (apply_ticket rewrites TOC/footer/
+                // header itself, it does not wait for a commit) — seed C02-2 deferred it to the next commit
+                let m = self.mem.take().expect("handle");
+                memvid_core::verif_hooks::verif_abandon(m);
+                match Memvid::open(&self.path) {
+                    Ok(m) => { self.mem = Some(m); Ok(Ok(())) }
+                    Err(e) => panic!("open after crash failed: {e:?}"),
+                }
+            }
             "reopen" => {
                 drop(self.mem.take());
                 match Memvid::open(&self.path) {
@@ -279,6 +295,8 @@ fn driver_line(op: &Value) -> String {
         }
         "bind" => format!("bind {}", op["mem"].as_str().unwrap()),
         "put" => "commit".into(),
+        // for the ticket state a crash + open is a reopen: accepted tickets are persisted by apply_ticket itself
+        "crash" => "reopen".into(),
         other => other.to_string(),
     }
 }
@@ -327,7 +345,9 @@ fn run_history(ops: &[Value], drv: &mut Option<Driver>) -> Outcome {
         };
         // ---- model
         let mut model = String::from("-");
-        if let Some(d) = drv.as_mut() {
+        if name == "dirtyput" {
+            // not a ticket operation and invisible to the ticket model: executed, traced, not compared
+        } else if let Some(d) = drv.as_mut() {
             let a = d.ask(&driver_line(op));
             model = if ticket || name == "bind" { a } else {
                 // `w` is not compared for commit/reopen/put
@@ -388,8 +408,8 @@ fn run_history(ops: &[Value], drv: &mut Option<Driver>) -> Outcome {
                 }
             }
         }
-        if name == "reopen" {
-            out.branches.push("reopen".into());
+        if name == "reopen" || name == "crash" {
+            out.branches.push(name.to_string());
             if before_state != after_state { out.branches.push("reopen-changed-observable-state".into()); }
             // across reopen: if the stored number fell below an accepted one, a replay is accepted
             if let Some(&m) = accepted_seqs.iter().max() {
@@ -500,11 +520,13 @@ fn gen_history(rng: &mut Rng, thorough: bool) -> Vec<Value> {
     let mut ops = vec![];
     let mut cur: i64 = 1;
     let mut bound: Option<[u8; 16]> = None;
+    let mut unpersisted_bind = false;
     let mut tags = vec![];
     if rng.chance(2, 3) {
         let m = gen_mem(rng);
         ops.push(op_bind(&m));
         bound = Some(m);
+        unpersisted_bind = true;
     }
     for k in 0..n {
         let allow_max = k + 4 >= n || rng.chance(1, 40);
@@ -519,6 +541,12 @@ fn gen_history(rng: &mut Rng, thorough: bool) -> Vec<Value> {
         } else if c < 82 {
             let m = if bound.is_some() && rng.bool() { bound.unwrap() } else { gen_mem(rng) };
             op_bind(&m)
+        } else if c < 86 {
+            op_simple("dirtyput")
+        } else if c < 89 {
+            // `bind` / `bindt` store the binding in the handle only (bind_memory persists its TICKET at once, the binding with the next commit), so
+            // a crash legitimately loses it — the ticket model has no notion of that: no crash while one is pending
+            if unpersisted_bind { op_simple("reopen") } else { op_simple("crash") }
         } else if c < 94 {
             op_simple("reopen")
         } else if c < 99 || !thorough || !rng.chance(1, 8) {
@@ -526,6 +554,7 @@ fn gen_history(rng: &mut Rng, thorough: bool) -> Vec<Value> {
         } else {
             op_simple("put") // put_bytes + commit rebuilds the indexes: seconds per call, thorough tier only
         };
+        match op["op"].as_str().unwrap() { "bind" | "bindt" => unpersisted_bind = true, "commit" | "put" | "reopen" => unpersisted_bind = false, _ => {} }
         // bookkeeping for aiming only
         match op["op"].as_str().unwrap() {
             "apply" => { let s = op["seq"].as_i64().unwrap(); if s > cur { cur = s; } }
@@ -546,7 +575,7 @@ fn gen_history(rng: &mut Rng, thorough: bool) -> Vec<Value> {
         }
         ops.push(op);
         // replays right after a reopen are the interesting ones
-        if ops.last().unwrap()["op"] == "reopen" && rng.chance(1, 2) {
+        if (ops.last().unwrap()["op"] == "reopen" || ops.last().unwrap()["op"] == "crash") && rng.chance(1, 2) {
             ops.push(op_apply(cur.saturating_sub(rng.i64(0, 1)), 0, None, "replay"));
         }
     }
@@ -572,6 +601,11 @@ fn corpus() -> Vec<Vec<Value>> {
         op_signed(9, 86400, Some(10737418240), "memvid-dashboard", &dash, &dash_sig, "embedded"), // replay
         op_apply(9, 0, None, "x"),
         op_apply(10, 0, None, "x"),
+    ]);
+    // a ticket accepted while a put is pending (dirty handle), then a crash: the ticket must survive, its replay be refused
+    v.push(vec![
+        op_apply(2, 60, Some(1 << 30), "a"), op_simple("dirtyput"), op_apply(7, 60, Some(1 << 30), "a"), op_simple("crash"),
+        op_apply(7, 0, None, "replay"), op_apply(8, 0, None, "a"), op_simple("dirtyput"), op_simple("crash"), op_apply(8, 0, None, "replay"),
     ]);
     // unsigned: fresh memory starts at 1; equal / lower / higher; reopen; replay
     v.push(vec![
@@ -670,7 +704,7 @@ fn main() {
          operations + observations");
     sum.expect_branches(&["accepted-apply", "accepted-signed", "accepted-bindt", "rejected-err-seq", "rejected-err-sig-unbound",
         "rejected-err-sig-memid", "rejected-err-sig-siglen", "rejected-err-sig-mismatch", "rejected-err-sig-badkey",
-        "rejected-err-bound", "reopen"]);
+        "rejected-err-bound", "reopen", "crash"]);
     if args.mode == "replay" {
         let case = load_replay(args.replay_file.as_ref().expect("replay file"));
         let input = case.get("input").unwrap_or(&case);
